@@ -57,31 +57,33 @@ PatternsAt(n) ==
        (IF Family = "lb" THEN { [base EXCEPT ![2] = "null", ![4] = "konly"], [base EXCEPT ![1] = "konly"] } ELSE {}) \cup
        (IF n >= 6 THEN { [base EXCEPT ![3] = "null", ![6] = "null"] } ELSE {})
 Scales(c) == IF Thorough /\ NZ(c) > 0 THEN { ROne } ELSE { ROne, Q(2,1), Q(1,2) }
-F1 == UNION { UNION { { MkProblem(n, c, Canon1(NB(c)), ROne), MkProblem(n, c, Canon2(NB(c)), ROne) }
-                       : c \in ClsVecs(n) } : n \in 3..NPlace }
-F2 == UNION { UNION { { MkProblem(n, c, S, s) : S \in { T \in SUBSET (1..NA) : Cardinality(T) = NB(c) },
-                                                s \in Scales(c) }
-                       : c \in PatternsAt(n) } : n \in {5} }
-
 Nums(n, tag) == IF Thorough THEN (IF n >= 6 THEN {1, n - 1, n + 2} ELSE {1, 2, 3, n - 1, n, n + 2})
                 ELSE IF tag = "place" THEN {1, n - 1, n + 2} ELSE {1, 3, n - 1, n + 2}
-OptsFor(p, tag) ==
+OptsFor(n, tag) ==
     IF Family = "lb"
-    THEN [api : IF tag = "place" /\ (~Thorough \/ p.n >= 6) THEN {"lb"} ELSE {"lb", "panel_lb"}, sparse : BOOLEAN,
-          num : Nums(p.n, tag), sort : {FALSE}, reduced : {FALSE}, pos : {0}]
-         \cup (IF tag = "place" /\ (~Thorough \/ p.n >= 6) THEN {}
-               ELSE [api : {"conecyl_lb"}, sparse : {TRUE}, num : Nums(p.n, tag), sort : {FALSE}, reduced : {FALSE}, pos : {3}])
-    ELSE [api : IF tag = "place" /\ (~Thorough \/ p.n >= 6) THEN {"freq"} ELSE {"freq", "panel_freq"}, sparse : {TRUE},
-          num : Nums(p.n, tag), sort : BOOLEAN, reduced : {FALSE}, pos : {0}]
-         \cup [api : IF tag = "place" /\ (~Thorough \/ p.n >= 6) THEN {"freq"} ELSE {"freq", "panel_freq"}, sparse : {FALSE},
+    THEN [api : IF tag = "place" /\ (~Thorough \/ n >= 6) THEN {"lb"} ELSE {"lb", "panel_lb"}, sparse : BOOLEAN,
+          num : Nums(n, tag), sort : {FALSE}, reduced : {FALSE}, pos : {0}]
+         \cup (IF tag = "place" /\ (~Thorough \/ n >= 6) THEN {}
+               ELSE [api : {"conecyl_lb"}, sparse : {TRUE}, num : Nums(n, tag), sort : {FALSE}, reduced : {FALSE}, pos : {3}])
+    ELSE [api : IF tag = "place" /\ (~Thorough \/ n >= 6) THEN {"freq"} ELSE {"freq", "panel_freq"}, sparse : {TRUE},
+          num : Nums(n, tag), sort : BOOLEAN, reduced : {FALSE}, pos : {0}]
+         \cup [api : IF tag = "place" /\ (~Thorough \/ n >= 6) THEN {"freq"} ELSE {"freq", "panel_freq"}, sparse : {FALSE},
                num : {2}, sort : BOOLEAN, reduced : BOOLEAN, pos : {0}]
 
-(* F3 (frequency family): one mass column that sums to zero although it is not null; model level only *)
-F3 == IF Family = "lb" THEN {}
-      ELSE { [p EXCEPT !.zs = {CHOOSE i \in Both(p) : \A j \in Both(p) : i <= j}] : p \in { q \in F1 : q.n <= 4 } }
-Cases == UNION { { <<p, o>> : o \in OptsFor(p, "place") } : p \in F1 \cup F3 }
-         \cup UNION { { <<p, o>> : o \in OptsFor(p, "spec") } : p \in F2 }
-MCInit == st \in { InitState(c[1], c[2], Dev) : c \in Cases }
+(* initial states by nested quantifiers (no big set of records has to be built and normalised):
+   F1 / F2 as above; F3 (frequency family): F1 problems with n <= 4 and one mass column that sums to zero
+   although it is not null - model level only, the harness does not realise these *)
+KSubsets(k) == { T \in SUBSET (1..NA) : Cardinality(T) = k }
+FirstBoth(c) == CHOOSE i \in DOMAIN c : c[i] = "both" /\ \A j \in DOMAIN c : c[j] = "both" => i <= j
+MCInit ==
+    \/ \E n \in 3..NPlace : \E c \in ClsVecs(n) : \E S \in {Canon1(NB(c)), Canon2(NB(c))} :
+         \E o \in OptsFor(n, "place") : st = InitState(MkProblem(n, c, S, ROne), o, Dev)
+    \/ \E c \in PatternsAt(5) : \E S \in KSubsets(NB(c)) : \E s \in Scales(c) :
+         \E o \in OptsFor(5, "spec") : st = InitState(MkProblem(5, c, S, s), o, Dev)
+    \/ /\ Family = "freq"
+       /\ \E n \in 3..4 : \E c \in ClsVecs(n) : \E S \in {Canon1(NB(c)), Canon2(NB(c))} :
+            \E o \in OptsFor(n, "place") :
+               st = InitState([MkProblem(n, c, S, ROne) EXCEPT !.zs = {FirstBoth(c)}], o, Dev)
 (* END: one compact line per finished behaviour (which actions ran, how it ended, which antecedents held) *)
 Flags(s) == [regime |-> IsLb(s.o.api) /\ Regime(s.p),
              tail |-> IsLb(s.o.api) /\ Finished(s) /\ Known(s) /\ Len(s.vals) > NPos(s.p),
